@@ -395,7 +395,7 @@ RESET_TABLE = {
 }
 
 
-@rule('R17.6', ['C17', 'C01', 'C04', 'C05'], floor=10, clause='reset() re-initialises every connection-scoped field on every path (state=Closed, tuple=None, listen_endpoint default, timer, sequence variables)')
+@rule('R17.6', ['C17', 'C01', 'C04', 'C05', 'C11'], floor=10, clause='reset() re-initialises every connection-scoped field on every path (state=Closed, tuple=None, listen_endpoint default, timer, sequence variables)')
 def r17_6(ctx):
     """T3 must-write: tcp::Socket::reset stores every field of the reviewed table on all paths.
     (`listen_endpoint` left stale lets a RST turn an actively opened SYN-RECEIVED socket into LISTEN.)"""
